@@ -98,7 +98,7 @@ Lemma res_ok_split t b : res_ok t (SplitWhitespace b).
 Proof. split; [exact Logic.I | intros _; exact Logic.I]. Qed.
 
 Lemma keeps_arm s mid k : TInv s -> keeps s (set_out (EvArm mid k :: out s) s).
-Proof. intro I. apply keeps_set_out. apply keeps_refl. exact I. Qed.
+Proof. intro I. (apply keeps_set_out; [|reflexivity]). apply keeps_refl. exact I. Qed.
 
 (* ---------- shared arm bodies ---------- *)
 Definition done_post (s0 : st) (r : presult) (s' : st) : Prop := keeps s0 s' /\ r = Done.
@@ -143,7 +143,7 @@ Proof.
       - apply res_ok_reprocess. }
     destruct (negb (o_iframe_srcdoc (opts s1))).
     + rewrite wp_bind, wp_parse_error. unfold do_set_quirks. rewrite wp_bind, wp_modify, wp_emit.
-      apply Fin. apply keeps_set_out. apply keeps_set_quirks_mode. apply keeps_set_out. exact K.
+      apply Fin. (apply keeps_set_out; [|reflexivity]). apply keeps_set_quirks_mode. (apply keeps_set_out; [|reflexivity]). exact K.
     + rewrite wp_ret. apply Fin. exact K.
 Qed.
 
@@ -157,7 +157,7 @@ Lemma armd_done s t : TInv s -> wp (b_done t) is_done s.
 Proof. intro I. unfold b_done. rewrite wp_ret. split; [exact I | reflexivity]. Qed.
 Lemma armd_unexpected s t : TInv s -> wp (b_unexpected t) is_done s.
 Proof.
-  intro I. unfold b_unexpected. apply wp_unexpected. split; [eapply TInv_core_eq; [apply core_eq_set_out | exact I] | reflexivity].
+  intro I. unfold b_unexpected. apply wp_unexpected. split; [eapply TInv_core_eq; [(apply core_eq_set_out; reflexivity) | exact I] | reflexivity].
 Qed.
 Lemma armd_append_text s t : TInv s -> late s -> wp (b_append_text t) is_done s.
 Proof.
@@ -196,7 +196,7 @@ Lemma arm_comment_to_html s t : TInv s -> late s -> wp (b_comment_to_html t) (st
 Proof. intros I L. eapply wp_mono; [apply armd_comment_to_html; assumption | intros; apply is_done_post; assumption]. Qed.
 
 Lemma TInv_arm s mid k : TInv s -> TInv (set_out (EvArm mid k :: out s) s).
-Proof. intro I. eapply TInv_core_eq; [apply core_eq_set_out | exact I]. Qed.
+Proof. intro I. eapply TInv_core_eq; [(apply core_eq_set_out; reflexivity) | exact I]. Qed.
 Lemma late_arm s mid k : late s -> late (set_out (EvArm mid k :: out s) s).
 Proof. intro L. exact L. Qed.
 
@@ -212,8 +212,8 @@ Proof.
   assert (Eo : orig_mode s = None).
   { unfold orig_ok in I4. destruct (orig_mode s); [|reflexivity]. destruct I4 as (A & _). destruct (mode s); discriminate. }
   constructor; try assumption.
-  - destruct I2 as [A B]. split; [|exact B]. unfold handles_of in *. simpl. rewrite Es in *. simpl in *.
-    inversion A as [|x l A0 A1]; subst. constructor; [exact A0|]. constructor; assumption.
+  - destruct I2 as [A B]. split; [|exact B]. unfold state_handles in *. simpl. rewrite Es in *. simpl in *.
+    pose proof A as A1. constructor; assumption.
   - unfold root_ok. simpl. rewrite Em, Es. exists h, []. split; [reflexivity | exact N].
   - unfold orig_ok. simpl. rewrite Eo. exact Sm.
   - unfold pending_ok in *. simpl. intros _. apply I5. destruct (mode s); discriminate.
@@ -244,9 +244,13 @@ Proof.
   set (h := next_handle s). set (s1 := new_elem_state _ _ _ s).
   assert (K1 : keeps s s1) by (apply new_elem_keeps; apply keeps_refl; exact I).
   rewrite wp_bind. unfold push. rewrite wp_modify, wp_emit. apply H.
-  eapply TInv_core_eq.
-  2:{ apply (TInv_root_created s1 h m); [exact (keeps_TInv _ _ K1) | exact E | apply new_elem_known | apply new_elem_name | exact Em | exact Sm | exact Hm]. }
-  repeat split.
+  pose proof (TInv_root_created s1 h m (keeps_TInv _ _ K1) E (new_elem_known _ _ _ _) (new_elem_name _ _ _ _) Em Sm Hm) as IX.
+  set (X := set_mode m (set_open_elems (vpush (open_elems s1) h) s1)) in *.
+  assert (KX : known X h) by apply new_elem_known.
+  assert (Ok : op_okb (sv X) (OpAppend 0 (inl h)) = true).
+  { cbn [op_okb]. pose proof (known_child_ok X h IX KX) as C. unfold child_ok in C. rewrite C. reflexivity. }
+  pose proof (TInv_emit X (OpAppend 0 (inl h)) IX eq_refl eq_refl Ok) as I3.
+  eapply TInv_core_eq; [|exact I3]. repeat split.
 Qed.
 
 Lemma step_before_html_ok s t : TInv s -> mode s = BeforeHtml -> wp (step_before_html t) (step_post t) s.
